@@ -52,7 +52,8 @@ reg(Spec("C07", "Every encoded frame is well-formed and within the size bounds",
          batch_predicate=gen_enc.make_batch_pred("C07"),
          view=lambda c, l: [x for x in l if x.startswith("frames") or x.startswith("CRASH")],
          rule="as C01 plus mixed versions, empty batches and zero-length payloads; view = frame bytes"))
-reg(Spec("C08", "Segmentation and aggregation follow the protocol rules", ["AsamCmp.Props.C07", "AsamCmp.Props.C07b"], C07_THMS, ["AsamCmp.Props.C07", "AsamCmp.Props.C07b"], gen_enc.gen_c07,
+reg(Spec("C08", "Segmentation and aggregation follow the protocol rules", ["AsamCmp.Props.C07", "AsamCmp.Props.C07b", "AsamCmp.Props.SrcTieEnc"], C07_THMS + ["AsamCmp.SrcTie.segFlag_src"],
+         ["AsamCmp.Props.C07", "AsamCmp.Props.C07b", "AsamCmp.Props.SrcTieEnc"], gen_enc.gen_c07,
          batch_predicate=gen_enc.make_batch_pred("C08"),
          view=lambda c, l: [x for x in l if x.startswith("frames") or x.startswith("CRASH")],
          rule="as C07"))
@@ -77,32 +78,37 @@ reg(Spec("C10", "Encoder output does not depend on earlier encode calls", ["Asam
          rule="history of 1..6 earlier encode calls, then the same batch on the used and on a fresh encoder"))
 
 
-reg(Spec("C02", "Decoding arbitrary bytes is memory-safe and terminates", ["AsamCmp.Props.C02", "AsamCmp.Props.C02b"],
-         ["AsamCmp.C02b.validators_inbounds", "AsamCmp.C02.decode_inbounds", "AsamCmp.C02.reassembled_length_inbounds", "AsamCmp.C02.walk_count", "AsamCmp.C02.decode_count", "AsamCmp.C02.decode_payload_present", "AsamCmp.C02.decode_state_ok", "AsamCmp.C02.decode_null", "AsamCmp.C02.decode_short"], ["AsamCmp.Props.C02", "AsamCmp.Props.C02b"], gen_dec.gen_c02, view=gen_dec.structure_view,
+reg(Spec("C02", "Decoding arbitrary bytes is memory-safe and terminates", ["AsamCmp.Props.C02", "AsamCmp.Props.C02b", "AsamCmp.Props.SrcTie", "AsamCmp.Props.SrcTieDec"],
+         ["AsamCmp.C02b.validators_inbounds", "AsamCmp.C02.decode_inbounds", "AsamCmp.C02.reassembled_length_inbounds", "AsamCmp.C02.walk_count", "AsamCmp.C02.decode_count", "AsamCmp.C02.decode_payload_present", "AsamCmp.C02.decode_state_ok", "AsamCmp.C02.decode_null", "AsamCmp.C02.decode_short",
+          "AsamCmp.SrcTie.can_validator_src", "AsamCmp.SrcTie.lin_validator_src", "AsamCmp.SrcTie.eth_validator_src", "AsamCmp.SrcTie.analog_validator_src", "AsamCmp.SrcTie.cm_validator_src", "AsamCmp.SrcTie.if_validator_src", "AsamCmp.SrcTie.isValidPacket_src", "AsamCmp.SrcTie.payloadLength_src", "AsamCmp.SrcTie.frame_header_src", "AsamCmp.SrcTie.isSegmented_src", "AsamCmp.SrcTie.isFirstSegment_src"], ["AsamCmp.Props.C02", "AsamCmp.Props.C02b", "AsamCmp.Props.SrcTie", "AsamCmp.Props.SrcTieDec"], gen_dec.gen_c02, view=gen_dec.structure_view,
          predicate=gen_dec.pred_c02,
          partial="'returned packets own their data after the buffer / decoder is released' is about object lifetime; observed by the harness (exact-size heap input freed before packets are read back, decoder destroyed before the last read, all under ASan), not proved",
          rule="well-formed frames of every kind truncated at every offset and with every length/type/flag field corrupted, TECMP frames of all message types, random byte strings, histories; inputs live in exact-size heap blocks freed before the packets are read back, the decoder is destroyed before the last read; view = packet count, payload length and validity, sanitizer verdict"))
-reg(Spec("C04", "Decoded packets report exactly what is on the wire", ["AsamCmp.Props.C04", "AsamCmp.Props.GenChecks"],
-         ["AsamCmp.C04.C04_wire", "AsamCmp.C04.C04_pad", "AsamCmp.C04.C04_truncate", "AsamCmp.C04.C04_invalid_marked", "AsamCmp.GenChecks.rules_ok", "AsamCmp.GenChecks.enums_ok", "AsamCmp.GenChecks.create_dispatch_ok"],
-         ["AsamCmp.Props.C04", "AsamCmp.Props.GenChecks"], gen_dec.gen_c04, predicate=gen_dec.pred_c04,
+reg(Spec("C04", "Decoded packets report exactly what is on the wire", ["AsamCmp.Props.C04", "AsamCmp.Props.GenChecks", "AsamCmp.Props.SrcTieDec"],
+         ["AsamCmp.C04.C04_wire", "AsamCmp.C04.C04_pad", "AsamCmp.C04.C04_truncate", "AsamCmp.C04.C04_invalid_marked", "AsamCmp.GenChecks.rules_ok", "AsamCmp.GenChecks.enums_ok", "AsamCmp.GenChecks.create_dispatch_ok",
+          "AsamCmp.SrcTie.isValidPacket_src", "AsamCmp.SrcTie.payloadLength_src", "AsamCmp.SrcTie.frame_header_src", "AsamCmp.SrcTie.rd_swap16_src", "AsamCmp.SrcTie.rd_swap32_src", "AsamCmp.SrcTie.rd_swap64_src"],
+         ["AsamCmp.Props.C04", "AsamCmp.Props.GenChecks", "AsamCmp.Props.SrcTieDec"], gen_dec.gen_c04, predicate=gen_dec.pred_c04,
          rule="frames built from the protocol table: 0..8 messages of all kinds, consistent and inconsistent inner lengths, error flags, every truncation, zero padding, prior history"))
-reg(Spec("C05", "Segmented messages reassemble under any interleaving", ["AsamCmp.Props.C05", "AsamCmp.Props.C05b", "AsamCmp.Props.GenChecks"],
+reg(Spec("C05", "Segmented messages reassemble under any interleaving", ["AsamCmp.Props.C05", "AsamCmp.Props.C05b", "AsamCmp.Props.GenChecks", "AsamCmp.Props.SrcTieDec"],
          ["AsamCmp.expected_payload", "AsamCmp.reassemble_single", "AsamCmp.reassemble_many", "AsamCmp.C05_interleaved", "AsamCmp.run_filter",
           "AsamCmp.C05b.segFrame_parse", "AsamCmp.C05b.C05_bytes_single", "AsamCmp.C05b.decodeAll_state", "AsamCmp.C05b.reassembled_length_wraps",
-          "AsamCmp.GenChecks.validNext_ok"], ["AsamCmp.Props.C05", "AsamCmp.Props.C05b", "AsamCmp.Props.GenChecks"], gen_dec.gen_c05, predicate=gen_dec.pred_c05,
+          "AsamCmp.GenChecks.validNext_ok",
+          "AsamCmp.SrcTie.segType_src", "AsamCmp.SrcTie.isSegmented_src", "AsamCmp.SrcTie.isFirstSegment_src", "AsamCmp.SrcTie.validNext_src"], ["AsamCmp.Props.C05", "AsamCmp.Props.C05b", "AsamCmp.Props.GenChecks", "AsamCmp.Props.SrcTieDec"], gen_dec.gen_c05, predicate=gen_dec.pred_c05,
          rule="1..4 endpoints sharing device or stream ids, 2..6 segments of sizes {0,1,odd,max}, start counters incl. 65534/65535, trailing bytes, seeded order-preserving shuffles; all interleavings of two 3-frame streams"))
-reg(Spec("C06", "Loss, duplication or reordering never yields a corrupted packet", ["AsamCmp.Props.C06", "AsamCmp.Props.C06b", "AsamCmp.Props.GenChecks"],
+reg(Spec("C06", "Loss, duplication or reordering never yields a corrupted packet", ["AsamCmp.Props.C06", "AsamCmp.Props.C06b", "AsamCmp.Props.GenChecks", "AsamCmp.Props.SrcTieDec"],
          ["AsamCmp.fault_safe", "AsamCmp.C06_no_corruption", "AsamCmp.fault_recovery", "AsamCmp.fault_recovery_unseg", "AsamCmp.C06_no_corruption_interleaved", "AsamCmp.C06Example.nonvacuous",
-          "AsamCmp.C06b.C06_bytes", "AsamCmp.C06b.C06_recovery_bytes", "AsamCmp.GenChecks.validNext_ok"], ["AsamCmp.Props.C06", "AsamCmp.Props.C06b", "AsamCmp.Props.GenChecks"], gen_dec.gen_c06, predicate=gen_dec.pred_c06,
+          "AsamCmp.C06b.C06_bytes", "AsamCmp.C06b.C06_recovery_bytes", "AsamCmp.GenChecks.validNext_ok",
+          "AsamCmp.SrcTie.validNext_src", "AsamCmp.SrcTie.frame_header_src"], ["AsamCmp.Props.C06", "AsamCmp.Props.C06b", "AsamCmp.Props.GenChecks", "AsamCmp.Props.SrcTieDec"], gen_dec.gen_c06, predicate=gen_dec.pred_c06,
          view=lambda c, l: l[-3:],
          rule="encoder output under fault scripts: single faults (drop/dup/swap/corrupt version/corrupt type) and random fault sequences, clean tail for recovery"))
 reg(Spec("C15", "TECMP messages convert to equivalent ASAM CMP packets", ["AsamCmp.Props.C15"],
          ["AsamCmp.C15.hdr_length", "AsamCmp.C15.C15_can", "AsamCmp.C15.C15_lin", "AsamCmp.C15.C15_cm", "AsamCmp.C15.C15_bus", "AsamCmp.C15.C15_unsupported", "AsamCmp.C15.C15_misfit_can", "AsamCmp.C15.C15_misfit_lin", "AsamCmp.C15.C15_misfit_cm", "AsamCmp.C15.C15_misfit_bus", "AsamCmp.C15.C15_misfit_header", "AsamCmp.C15.C15_valid_payloads"], ["AsamCmp.Props.C15"], gen_dec.gen_c15, predicate=gen_dec.pred_c15,
          rule="TECMP frames from the layout table: CAN/CAN-FD/LIN of every data length, capture-module and bus status, all 256 message types, inconsistent lengths"))
-reg(Spec("C17", "Decoder keeps reassembly state only for messages in progress", ["AsamCmp.Props.C17", "AsamCmp.Props.C05b", "AsamCmp.Props.C17b"],
+reg(Spec("C17", "Decoder keeps reassembly state only for messages in progress", ["AsamCmp.Props.C17", "AsamCmp.Props.C05b", "AsamCmp.Props.C17b", "AsamCmp.Props.SrcTieDec"],
          ["AsamCmp.parseFrame_WF", "AsamCmp.localStep_refines", "AsamCmp.C17_pending_iff_open", "AsamCmp.C17_pending_bytes", "AsamCmp.C17_idle_empty", "AsamCmp.C17_support", "AsamCmp.C17_release", "AsamCmp.C17_last_releases", "AsamCmp.decode_foreign_state", "AsamCmp.C05b.decodeAll_state", "AsamCmp.C05b.C17_bytes",
-          "AsamCmp.C17b.tableOk_empty", "AsamCmp.C17b.decodeLL_refines", "AsamCmp.C17b.runLL_refines", "AsamCmp.C17b.table_entries"],
-         ["AsamCmp.Props.C17", "AsamCmp.Props.C05b", "AsamCmp.Props.C17b"], gen_dec.gen_c17, predicate=gen_dec.pred_c17,
+          "AsamCmp.C17b.tableOk_empty", "AsamCmp.C17b.decodeLL_refines", "AsamCmp.C17b.runLL_refines", "AsamCmp.C17b.table_entries",
+          "AsamCmp.SrcTie.isSegmented_src", "AsamCmp.SrcTie.isFirstSegment_src", "AsamCmp.SrcTie.validNext_src"],
+         ["AsamCmp.Props.C17", "AsamCmp.Props.C05b", "AsamCmp.Props.C17b", "AsamCmp.Props.SrcTieDec"], gen_dec.gen_c17, predicate=gen_dec.pred_c17,
          rule="exhaustive histories over {unseg, first, inter, last, invalid, header-only, unseg+inter, TECMP, short} x 2 endpoints x good/bad counter; random histories; pending table read after every frame"))
 reg(Spec("C18", "Endpoints are isolated from each other", ["AsamCmp.Props.C18"],
          ["AsamCmp.runT_untag", "AsamCmp.delivered_tagged", "AsamCmp.run_filter", "AsamCmp.C18_isolation", "AsamCmp.decode_foreign_state", "AsamCmp.decode_other_endpoint"], ["AsamCmp.Props.C18"], gen_dec.gen_c18, predicate=gen_dec.pred_c18,
@@ -114,13 +120,14 @@ reg(Spec("C11", "Setting a field changes that field and nothing else", ["AsamCmp
          rule="every class x every field x {all-zero, all-ones, 2 random} backgrounds x all in-range values (exhaustive for fields <= 8 bits quick / <= 16 bits thorough, boundary + random for wider), chains of 1..8 sets; non-trivial = non-zero background or chain; predicate: raw bytes = background with exactly the written bit ranges replaced, every getter = table read",
          assumptions=["float fields travel as 32-bit patterns; NaN patterns are excluded from generation"]))
 reg(Spec("C12", "Headers and payload fields use the ASAM CMP / TECMP wire layout", ["AsamCmp.Props.C11", "AsamCmp.Props.GenChecks"],
-         ["AsamCmp.C11.get_is_be", "AsamCmp.C11.set_is_be", "AsamCmp.C11.defaults_ok", "AsamCmp.C11.C11_all_classes", "AsamCmp.C11.tables_wf", "AsamCmp.GenChecks.sizes_ok", "AsamCmp.GenChecks.offsets_ok", "AsamCmp.GenChecks.masks_ok", "AsamCmp.GenChecks.enums_ok", "AsamCmp.GenChecks.rules_ok"], ["AsamCmp.Props.C11", "AsamCmp.Props.GenChecks"], gen_fld.gen_c12, predicate=gen_fld.pred_c11,
-         rule="default-constructed objects; bytes laid out by hand from the protocol table read through every getter; every field written through the API on a default object compared with the table's big-endian position",
+         ["AsamCmp.C11.get_is_be", "AsamCmp.C11.set_is_be", "AsamCmp.C11.defaults_ok", "AsamCmp.C11.C11_all_classes", "AsamCmp.C11.tables_wf", "AsamCmp.GenChecks.sizes_ok", "AsamCmp.GenChecks.offsets_ok", "AsamCmp.GenChecks.masks_ok", "AsamCmp.GenChecks.enums_ok", "AsamCmp.GenChecks.rules_ok"], ["AsamCmp.Props.C11", "AsamCmp.Props.GenChecks"], gen_fld.gen_c12, predicate=gen_fld.pred_c12,
+         rule="default-constructed objects; bytes laid out by hand from the protocol table read through every getter; every field written through the API on a default object, on all-ones and random objects, and twice in a row, compared with the table's big-endian position; variable-length parts laid out by the builders on fresh and on used objects",
          assumptions=["float fields travel as 32-bit patterns; NaN patterns are excluded from generation"]))
 
 
-reg(Spec("C03", "Payloads accepted by validation expose only in-bounds data", ["AsamCmp.Props.C03", "AsamCmp.Props.GenChecks"],
-         ["AsamCmp.C03.accessors_inbounds", "AsamCmp.C03.kinds_total", "AsamCmp.C03.msgValid_inbounds", "AsamCmp.C03.create_valid", "AsamCmp.C03.validator_kind", "AsamCmp.C03.decoded_accessors_inbounds", "AsamCmp.GenChecks.create_dispatch_ok"], ["AsamCmp.Props.C03", "AsamCmp.Props.GenChecks"], gen_val.gen_c03, predicate=gen_val.pred_c03, selfcheck=gen_val.selfcheck_val,
+reg(Spec("C03", "Payloads accepted by validation expose only in-bounds data", ["AsamCmp.Props.C03", "AsamCmp.Props.GenChecks", "AsamCmp.Props.SrcTie"],
+         ["AsamCmp.C03.accessors_inbounds", "AsamCmp.C03.kinds_total", "AsamCmp.C03.msgValid_inbounds", "AsamCmp.C03.create_valid", "AsamCmp.C03.validator_kind", "AsamCmp.C03.decoded_accessors_inbounds", "AsamCmp.GenChecks.create_dispatch_ok",
+          "AsamCmp.SrcTie.can_validator_src", "AsamCmp.SrcTie.lin_validator_src", "AsamCmp.SrcTie.eth_validator_src", "AsamCmp.SrcTie.analog_validator_src", "AsamCmp.SrcTie.cm_validator_src", "AsamCmp.SrcTie.if_validator_src", "AsamCmp.SrcTie.isValidPacket_src"], ["AsamCmp.Props.C03", "AsamCmp.Props.GenChecks", "AsamCmp.Props.SrcTie"], gen_val.gen_c03, predicate=gen_val.pred_c03, selfcheck=gen_val.selfcheck_val,
          rule="per class: every buffer length 0..header+8 x {zeros, ones, random}; every inner length field x {0, fits-1, fits, fits+1, max}; every truncation of well-formed status payloads; random content; a 65.6 KiB interface payload with count 0xFFFF; message-level buffers; accessors of decoded and TECMP-converted packets; views are touched byte by byte under ASan"))
 
 
